@@ -113,3 +113,45 @@ Proof. split; [vm_compute; reflexivity|]. apply C09_document_structure. apply (s
 (* how many element names get a machine today *)
 Example C09_document_domain : Nat.leb 380 (List.length (filter (fun p => match elem_tpl (fst p) with Some _ => true | None => false end) sym_table)) = true.
 Proof. vm_compute. reflexivity. Qed.
+
+(* ---- whole documents WITH text and attributes (Model/PDoc.v, DocVal.v, DocValTables.v) ---- *)
+From MX Require Import Model.PDoc Model.DocVal Model.DocValTables.
+Section WithPythonFloat.
+  (* Python's float() is a parameter; what is assumed of it: it returns a float or raises ValueError, and it reads the decimal text of an integer *)
+  Variable py_float : pstr -> option pyval.
+  Hypothesis float_returns_float : forall s f, py_float s = Some f -> exists k q r, f = VFloat k q r.
+  Hypothesis float_reads_integers : forall z, py_float (strip (render_int z)) <> None.
+  (* every document of any depth that is schema-valid in structure (as above) and whose texts and attribute values are enumeration literals,
+     accepted integers of integer-only types or free strings (text without outer white space), with declared attributes of pairwise distinct names
+     and all required attributes present: the parser reads it without an exception and serialising what was read gives back EXACTLY that document -
+     elements, order, nesting, every text, every attribute in file order with its value *)
+  Theorem C09_document_values : forall d, vvalid d -> exists e, vparse py_float d = Some e /\ vemit e = Some d.
+  Proof. exact (tables_vdoc_roundtrip py_float float_returns_float float_reads_integers rows_ok9). Qed.
+  (* ANY document, valid or not: if the parser returns and the result serialises, then at every node the children emitted are the children read, up to
+     order, and the text and attributes emitted are what serialisation makes of what the constructor and setattr accepted (vsame) ... *)
+  Theorem C09_document_values_no_silent_loss : forall d e d', vparse py_float d = Some e -> vemit e = Some d' -> vsame py_float d d'.
+  Proof. exact (tables_v_no_silent_loss py_float rows_ok9). Qed.
+  (* ... which for a node with pairwise distinct attribute names means: the text emitted is str() of the value accepted for the file's text; the
+     attributes emitted are exactly the file's, in file order, each with str() of the value accepted for it - none dropped, none invented *)
+  Theorem C09_node_payload_kept : forall tag x attrs q x' attrs', NoDup (map fst attrs) -> vrdp py_float tag (x, attrs) = Some q -> vwrp tag q = Some (x', attrs') ->
+    (exists pv, vrd_text py_float tag x = Some pv /\ x' = render pv)
+    /\ Forall2 (fun ax ax' => fst ax' = fst ax /\ exists pv, vrd_attr py_float tag (fst ax) (snd ax) = Some pv /\ snd ax' = render pv) attrs attrs'.
+  Proof. exact (node_payload_kept py_float). Qed.
+End WithPythonFloat.
+Print Assumptions C09_document_values.
+Print Assumptions C09_document_values_no_silent_loss.
+Print Assumptions C09_node_payload_kept.
+(* non-vacuity: <measure number="1"><barline location="right"><bar-style>light-heavy</bar-style></barline></measure> and
+   <pitch><step>C</step><octave>4</octave></pitch> meet the premise (decided by computation, lifted by vvalidb_sound) *)
+Example C09_document_values_example :
+  let m := PNode vP s_measure ([], [("number", cp "1")]) [PNode vP s_barline ([], [("location", cp "right")]) [PNode vP s_bar_style (cp "light-heavy", []) []]] in
+  let p := PNode vP s_pitch ([], []) [PNode vP s_step (cp "C", []) []; PNode vP s_octave (cp "4", []) []] in
+  vvalidb m = true /\ vvalidb p = true /\ vvalid m /\ vvalid p.
+Proof.
+  assert (A: vvalidb (PNode vP s_measure ([], [("number", cp "1")]) [PNode vP s_barline ([], [("location", cp "right")]) [PNode vP s_bar_style (cp "light-heavy", []) []]]) = true) by (vm_compute; reflexivity).
+  assert (B: vvalidb (PNode vP s_pitch ([], []) [PNode vP s_step (cp "C", []) []; PNode vP s_octave (cp "4", []) []]) = true) by (vm_compute; reflexivity).
+  split; [exact A|split; [exact B|split; apply (vvalidb_sound rows_ok9); assumption]].
+Qed.
+(* and a document outside the premise that the model refuses exactly like the library: an undeclared attribute aborts the parse *)
+Example C09_document_values_undeclared : vrun [] (PNode vP s_pitch ([], [("no-such", cp "x")]) []) = VNoParse.
+Proof. vm_compute. reflexivity. Qed.
